@@ -495,11 +495,6 @@ theorem C09_ring_payload_dropped_exactly_once {cap : Nat} {s s' : State} (hc : 0
     s'.dropped.Nodup ∧ ∀ i, i ∈ s'.dropped ↔ i < s'.sent.length :=
   teardown_drops_each_once hc h hnt ht
 
-/-- non-vacuity: a complete life cycle with wrap-around ends in a teardown that drops 0,1,2 once each -/
-example : ((runOps (init 2) [(0, .send 7), (0, .recv 0 .try none), (0, .send 8), (0, .recv 0 .try none), (0, .send 9),
-      (0, .rDrop 0), (0, .sDrop)]).bind stepTeardown).map (fun s => (s.dropped, s.sent)) = some ([0, 1, 2], [7, 8, 9]) := by
-  decide
-
 /-! ## Witnesses: what goes wrong in the two tainted uses (proved by evaluation of the model) -/
 
 /-- run one operation of thread `t` to completion with nobody else running (`fuel` actions) -/
@@ -552,6 +547,12 @@ theorem disconnected_final_fails_reopened_sender :
   constructor <;> decide
 
 /-! ## Non-vacuity -/
+
+/-- non-vacuity: a complete life cycle with wrap-around ends in a teardown that drops 0,1,2 once each -/
+example : ((runOps (init 2) [(0, .send 7), (0, .recv 0 .try none), (0, .send 8), (0, .recv 0 .try none), (0, .send 9),
+      (0, .rDrop 0), (0, .sDrop)]).bind stepTeardown).map (fun s => (s.dropped, s.sent)) = some ([0, 1, 2], [7, 8, 9]) := by
+  decide
+
 
 /-- a reachable untainted state with two registered receivers, a value in flight and a full ring -/
 example : ∃ s, Reach 1 s ∧ s.taint = false ∧ Registered s 0 ∧ Registered s 1 ∧ s.sent = [5] ∧ s.head = 1 := by
